@@ -44,7 +44,10 @@ def main():
     P = Program(T.TYPE_FILES)
     if P.errors:
         raise Unsupported("; ".join(P.errors))
-    depth = 1 if C.tier == "quick" else 2
+    # depth 2 does not finish: two depth-2 templates ran past 45 minutes even with one of them at depth 1 (several hundred
+    # thousand unify paths, each followed by two is_subtype executions).  Both tiers use depth-1 templates; thorough adds
+    # unify_all over three elements and more translator-validation samples.
+    depth = 1
     C.bounds = {"type_depth": depth if depth == 1 else "first argument 2, second argument 1; unify(t, t) at 2", "max_arity": T.MAX_ARITY, "names": T.NAMES, "unify_all_elements": "2 at depth 1" if C.tier == "quick" else "3 at depth 1"}
     C.assumptions += ["type names are atoms; derive(PartialEq) on Type/TypeName is structural equality (merged over templates)",
                       "well-formed types without Error nodes (property statement)"]
